@@ -36,11 +36,16 @@ SHAPES = [
     ("input", 'Query.user(id="1", f=Filter(a=1, kind=Kind.A)).fields(UserFields.id)', {"id": ("ID!", "1"), "f": ("Filter", {"a": 1, "kind": "A"})}),
     ("none_omitted", 'Query.me().fields(UserFields.friends(first=None).fields(UserFields.id))', {}),
     ("iface", 'Query.node(id="7").fields(NodeInterface.id).on("User", UserFields.user_name)', {"id": ("ID!", "7")}),
+    ("siblings_same_arg", 'Query.me().fields(UserFields.friends(first=1).alias("a").fields(UserFields.id), UserFields.friends(first=2).alias("b").fields(UserFields.id))',
+     {"first": ("Int", 1), "first#2": ("Int", 2)}),
+    ("same_arg_parent_child", 'Query.users(ids=None, first=5).fields(UserFields.friends(first=6).fields(UserFields.id))' if False else
+     'Query.user(id="9").fields(UserFields.posts(after="p").fields(PostFields.author().fields(UserFields.posts(after="q").fields(PostFields.title))))',
+     {"id": ("ID!", "9"), "after": ("String", "p"), "after#2": ("String", "q")}),
 ]
 NSH = len(SHAPES)
 PREFIXES = [[], [8], [1], [8, 1], [5, 6]]
 KNOWN_SHAPES = {"user_tags": "C14-list-type-dropped", "users_ids": "C14-list-type-dropped", "best_friend": "C14-snake-name-as-graphql-name",
-                "deep": "C14-deep-variables-undeclared"}
+                "deep": "C14-deep-variables-undeclared", "same_arg_parent_child": "C14-deep-variables-undeclared"}
 
 CHILD = r'''
 import sys, json, importlib
@@ -147,7 +152,7 @@ def judge(out, shapes):
     expected_pairs = []
     for sh in shapes:
         for arg, (typ, val) in SHAPES[sh][2].items():
-            expected_pairs.append((arg, typ, val))
+            expected_pairs.append((arg.split("#")[0], typ, val))
     values = out["variables"] or {}
     if sorted(values) != sorted(declared):
         probs.append(("vars", f"declared {sorted(declared)} but values for {sorted(values)}"))
